@@ -100,20 +100,20 @@ def run(ctx):
             ctx.ob('B.builds', 'config:%s' % cfg_key(c), False, 'feature configuration {%s} does not compile: %s' % (feature_string(c), str(e)[-300:]), cfg=cfg_key(c))
             return
     base = ctx.facts('none')
-    additive(ctx, base, ctx.facts('bat'), 'bat', allowed={})
+    ctx.guard(additive, ctx, base, ctx.facts('bat'), 'bat', allowed={})
     additive(ctx, base, ctx.facts('doc'), 'doc', allowed={
         "<meta_help::HelpItem<'a> as std::convert::From<&'a item::Item>>::from": 'copies the docgen-only field Item::Command.info into HelpItem::Command.info (carried data, read only by docgen functions)',
         "<meta_help::HelpItem<'a> as std::fmt::Debug>::fmt": 'derived Debug prints the extra field'})
     if ctx.tier != 'quick':
-        additive(ctx, base, ctx.facts('derive'), 'derive', allowed={})
+        ctx.guard(additive, ctx, base, ctx.facts('derive'), 'derive', allowed={})
     for col in ('dull', 'bright'):
-        colour(ctx, base, ctx.facts(col), col)
-    inert(ctx, base, ctx.facts('ac'), 'ac')
-    family(ctx, ctx.facts('ac'), 'ac')
-    live_pure_total(ctx, ctx.facts('ac'), 'ac')
+        ctx.guard(colour, ctx, base, ctx.facts(col), col)
+    ctx.guard(inert, ctx, base, ctx.facts('ac'), 'ac')
+    ctx.guard(family, ctx, ctx.facts('ac'), 'ac')
+    ctx.guard(live_pure_total, ctx, ctx.facts('ac'), 'ac')
     # the combined build is the sum of the parts: compare `all` against `ac` on the autocomplete-touched functions
     if ctx.tier != 'quick':
-        inert(ctx, ctx.facts('docgen,batteries'), ctx.facts('all' if False else 'autocomplete,docgen,batteries,bright-color'), 'ac+others', colour_ok=True)
+        ctx.guard(inert, ctx, ctx.facts('docgen,batteries'), ctx.facts('all' if False else 'autocomplete,docgen,batteries,bright-color'), 'ac+others', colour_ok=True)
 
 def differing(base, feat):
     out = []
